@@ -295,6 +295,8 @@ func (e *Env) JudgeCheck(who string, rq gen.Request, st *rm.State, allowed bool,
 			sig += " diff_subtrahend_reaches_tuple_cycle"
 		} else if st.SwallowedBySibling(rq.Ctx, sup.Relevant) {
 			sig += " condition_error_has_satisfied_sibling"
+		} else if st.ShadowedSibling(rq.User, rq.Ctx) {
+			sig += " unsatisfied_conditional_tuple_shadows_sibling_of_same_object"
 		}
 		e.Violate("false_for_undecided", sig, "%s: allowed=false although the answer depends on a condition that cannot be evaluated; the request should fail (%s)", desc, ref)
 	default:
@@ -348,6 +350,8 @@ func (e *Env) grantTags(st *rm.State, rq gen.Request) string {
 		return " under_exclusion unsatisfied_conditional_tuple_shadows_sibling_of_same_object"
 	case st.DiffSubtrahendReachesCycle(rq.Obj, rq.Rel):
 		return " under_exclusion diff_subtrahend_reaches_tuple_cycle"
+	case st.SwallowedBySibling(rq.Ctx, st.Unevaluable(rq.Ctx)):
+		return " under_exclusion condition_error_has_satisfied_sibling"
 	}
 	return ""
 }
